@@ -49,6 +49,8 @@ def extra_instances(seed):
     D = lambda s: diagonal.DiagonalOperator(r(3), in_structure=s)       # noqa: E731
     out = {
         'IdentityOperator{tree}': lambda: core.IdentityOperator(tree),
+        'IdentityOperator{int32}': lambda: core.IdentityOperator(S((3,), jnp.int32)),
+        'HomothetyOperator{int32}': lambda: core.HomothetyOperator(jnp.asarray(3, jnp.int32), S((2,), jnp.int32)),
         'HomothetyOperator{tree}': lambda: core.HomothetyOperator(r(), tree),
         'DiagonalOperator{tree}': lambda: D(tree),
         'DiagonalInverseOperator{tree}': lambda: D(tree).I,
